@@ -33,9 +33,9 @@ def plan(plan, tier, seed):
                        "src/interpreter/src/stdlib/vertcat.rs: VerticalConcatenate{TwoArgs,ThreeArgs,NArgs}::solve"]
     plan.trusted += ["Kani / CBMC", "nalgebra executed"]
     plan.assumptions += ["block shapes fixed per harness (see bounded_checks); element kind u8",
-                         "rejection of mismatched block heights/widths and of mixed kinds is done in MatrixHorzCat/MatrixVertCat::compile and matrix()/matrix_row() (evaluator code): not decided",
+                         "rejection of mixed kinds is done in MatrixHorzCat/MatrixVertCat::compile: not decided (mismatched heights / widths: decided on matrix() / matrix_row(), see C11.verus.matrix*)",
                          "HorizontalConcatenateRDN is given the positions the dispatch computes; its bytecode factory `new` computes different positions (argument index) — see DESIGN findings"]
-    plan.undecided_clauses += ["C11: shape/kind rejection, the (nargs, rows, columns) routing, fixed-size kernels (not built in this configuration)"]
+    plan.undecided_clauses += ["C11: kind rejection, the (nargs, rows, columns) routing, fixed-size kernels (not built in this configuration)"]
     try:
         from units import vC11
         vC11.add_units(plan, "C11")
@@ -46,4 +46,16 @@ def plan(plan, tier, seed):
         pos_check.add(plan, "C11")
     except Exception as e:
         plan.anchor_errors.append(("C11.positions.*", repr(e)))
+    # the literal evaluators: a literal whose blocks disagree in height (within a row) or width (across rows) never reaches a kernel
+    from units import vC11m
+    src = vlib.read_repo(vC11m.PATH)
+    for fn, on, what in (("matrix_row", "C11.verus.matrix_row.blocks_of_a_row_have_one_height", "for every row of a matrix literal and every behaviour of the element evaluator: the blocks handed to the horizontal concatenation all have the same height (empty 0x0 blocks exempt); a block of another height is an error; the all-scalars-with-empty path builds a 1 x n value only from 1x1 elements"),
+                         ("matrix", "C11.verus.matrix.rows_have_one_width", "for every matrix literal and every behaviour of the row evaluator: the rows handed to the vertical concatenation all have the same width (empty 0x0 rows exempt); a row of another width is an error")):
+        plan.ob(on, "verus", "proved", functions=["src/interpreter/src/structures.rs: %s (whole body)" % fn], what=what)
+        try:
+            plan.verus.append(vlib.VerusUnit("c11_lit_" + fn, vC11m.unit(src, fn), {fn: on}, ["canary_c11_" + fn]))
+        except vlib.AnchorLost as e:
+            plan.anchor_errors.append((on, str(e)))
+    plan.dropped.append(vC11m.__doc__.strip())
+    plan.assumptions += ["matrix / matrix_row: Value::shape() returns [rows, cols]; matrix_row / matrix_column (the evaluators of the parts) are arbitrary; MatrixHorzCat / MatrixVertCat::compile are stand-ins whose PRECONDITION (equal heights / equal widths, 0x0 exempt) is the obligation at the call site (contracts/C11/litmodel.rs)"]
     plan.level = "proof"
